@@ -73,8 +73,8 @@ Definition chunk_valid (o : opts) (h : fhdr) (st : rst) (c : chunkd) : Prop :=
 Lemma handler_valid o h st c : chunk_valid o h st c ->
   handler o h st (ctype_of c) (cflags_of c) (payload_of c) = Ret (next_st st c, []).
 Proof.
-  intros [_ H]. unfold handler. destruct c as [es|first ps|first henc off es|entity first f henc off items|idx first ty vals|ty p];
-    cbn [ctype_of cflags_of payload_of].
+  intros [Hpl H]. unfold handler. destruct c as [es|first ps|first henc off es|entity first f henc off items|idx first ty vals|ty p];
+    cbn [ctype_of cflags_of payload_of] in *.
   - destruct H as [H1 [H2 H3]]. change (ChunkType_PropertyDirectory =? ChunkType_EndOfFile) with false.
     rewrite Z.eqb_refl. cbv iota. apply dirp_chunk_ok; assumption.
   - destruct H as [-> [H1 [H2 [H3 [H4 [H5 [H6 H7]]]]]]].
